@@ -122,7 +122,9 @@ class Runner:
     def pair(self, relation, a, b, bucket, key, factor=1.0, lean_b=True, lean_a=True):
         va = self.value(a, lean=lean_a)
         vb = self.value(b, lean=lean_b)
-        ok = close(va * factor if va is not None else None, vb, TOL_PAIR)
+        # re-rooting replaces P(a)P(b) by P(a+b) through the eigen-decomposition: different arithmetic, not a rewriting of the
+        # same arithmetic — held to 1e-10 (a 14-taxon case differed by 1.5e-11 relative); every other relation to 1e-11
+        ok = close(va * factor if va is not None else None, vb, 1e-10 if relation.startswith("reroot") else TOL_PAIR)
         self.ck.case(key=(relation,) + tuple(key), bucket=bucket + "/" + relation,
                      sample={"relation": relation, "a": va, "b": vb, "newick_a": a["newick"], "newick_b": b["newick"],
                              "taxa_a": a["taxa"], "taxa_b": b["taxa"]},
@@ -378,6 +380,80 @@ def column_relations(run: Runner, rng, case, bucket):
         run.pair("perm-taxa/general", case, c2, bucket, key + (tuple(taxa2),))
 
 
+def symbol_sweep(run: Runner, rng, thorough=False):
+    """PER-SYMBOL sweep (not random alignments): for every data type and EVERY symbol of its alphabet (both cases, aliases,
+    ambiguity codes, gap / unknown, a few characters outside the alphabet) placed at one tip of a small fixed tree:
+      * tip states  ==  tip partials with ambiguities treated as missing      (same data by the property);
+      * wherever the symbol is NOT a state under the regime, rewriting it as the fully-missing code (`-`) is the same data:
+        always for tip states, for tip partials with use_ambiguities false, and with use_ambiguities true only for the
+        fully-missing symbols;
+      * a state written in lower case / as the alias U is the same data as its canonical spelling."""
+    names = ["t0", "t1", "t2", "t3"]
+    tree = G.parse_newick("((t0:0.11,t1:0.23):0.07,(t2:0.31,t3:0.13):0.19);")
+    taxa = ["t2", "t0", "t3", "t1"]
+
+    def case_for(dt, subst, cols, ts, ua, extra=None):
+        size = 3 if dt == "codon" else 1
+        seqs = {nm: "".join(c[i] for c in cols) for i, nm in enumerate(names)}
+        c = {"taxa": taxa, "seq_order": names, "seqs": seqs, "datatype": dt, "rooting": "unrooted", "subst": subst,
+             "site": {"kind": "constant"}, "use_tip_states": ts, "use_ambiguities": ua, "dates": None, "clock": None,
+             "newick": G.newick(tree)}
+        if extra:
+            c.update(extra)
+        return c
+
+    def sweep(dt, subst, symbols, plain, is_state, fully_missing, missing_code, canon, extra=None, union_only=()):
+        for sym in symbols:
+            p0, p1 = plain[0], plain[1]
+
+            def cols_with(x):
+                # the symbol at one tip per column (every tip once), plus a column where two tips carry it
+                cs = [[x if j == i else (p0 if (i + j) % 2 else p1) for j in range(4)] for i in range(4)]
+                cs.append([x, x, p0, p1])
+                return cs
+            kid = (dt, sym)
+            states = case_for(dt, subst, cols_with(sym), True, None, extra)
+            noamb = case_for(dt, subst, cols_with(sym), False, False, extra)
+            amb = case_for(dt, subst, cols_with(sym), False, True, extra)
+            if sym not in union_only:
+                run.pair(f"symbol/states-vs-partials-noamb/{dt}", states, noamb, "symbol-sweep", kid, lean_a=False, lean_b=False)
+            if not is_state(sym):
+                miss = cols_with(missing_code)
+                run.pair(f"symbol/as-missing/tip-states/{dt}", states, case_for(dt, subst, miss, True, None, extra), "symbol-sweep", kid, lean_a=False, lean_b=False)
+                if sym not in union_only:
+                    run.pair(f"symbol/as-missing/partials-noamb/{dt}", noamb, case_for(dt, subst, miss, False, False, extra), "symbol-sweep", kid, lean_a=False, lean_b=False)
+                if fully_missing(sym):
+                    run.pair(f"symbol/as-missing/partials-amb/{dt}", amb, case_for(dt, subst, miss, False, True, extra), "symbol-sweep", kid, lean_a=False, lean_b=False)
+            else:
+                c = canon(sym)
+                if c != sym:
+                    for ts, ua, lab in ((True, None, "tip-states"), (False, False, "partials-noamb"), (False, True, "partials-amb")):
+                        run.pair(f"symbol/canonical-spelling/{lab}/{dt}", case_for(dt, subst, cols_with(sym), ts, ua, extra),
+                                 case_for(dt, subst, cols_with(c), ts, ua, extra), "symbol-sweep", kid, lean_a=False, lean_b=False)
+
+    # nucleotides: the 18 symbols in both cases + characters outside the alphabet
+    nuc = list(G.NUC18) + [c.lower() for c in G.NUC18 if c.isalpha()] + list("XxZ*0.")
+    sweep("nucleotide", {"kind": "HKY", "kappa": 2.3, "freqs": [0.1, 0.2, 0.3, 0.4]}, nuc, "AC",
+          lambda x: x.upper() in "ACGTU", lambda x: x.upper() not in "RYMWSKBDHV" and x.upper() not in "ACGTU", "-",
+          lambda x: x.upper().replace("U", "T"))
+    # amino acids: 20 states, B Z X J O U * ? - in both cases
+    aa = list(G.AA_ALL) + [c.lower() for c in G.AA_ALL if c.isalpha()] + list("0.")
+    sweep("aa", {"kind": rng.choice(["LG", "WAG"])}, aa, "AC", lambda x: x.upper() in G.AA20,
+          lambda x: x.upper() not in "BZ" and x.upper() not in G.AA20, "-", lambda x: x.upper())
+    # codons (Universal code): sense triplets in several spellings, ambiguous / gap triplets
+    sense = G.codon_sense(0)
+    cod = [sense[0], sense[17], sense[60], sense[17].lower(), "TTT".replace("T", "U"), "ttu", "---", "???", "NNN", "A-G", "ACR", "acn", "Y??", "A?C"]
+    k = 0
+    sweep("codon", {"kind": "MG94", "kappa": 2.0, "alpha": 1.1, "beta": 0.7, "freqs": [1.0 / len(sense)] * len(sense), "genetic_code": k}, cod,
+          [sense[3], sense[40]], lambda x: x.upper().replace("U", "T") in sense, lambda x: True, "---",
+          lambda x: x.upper().replace("U", "T"), extra={"genetic_code": k})
+    # a general data type with user ambiguity codes: codes, an alias, proper ambiguity keys, unknown symbols
+    gen = {"codes": ["0", "1", "2", "x"], "ambiguities": {"K": ["0", "2"], "M": ["1", "2", "x"], "U": "1"}}
+    sweep("general", {"kind": "GeneralJC69", "states": 4}, ["0", "1", "2", "x", "U", "K", "M", "?", "-", "Z"], ["0", "1"],
+          lambda x: x in gen["codes"] or x == "U", lambda x: x not in ("K", "M"), "-", lambda x: "1" if x == "U" else x,
+          extra={"general": gen}, union_only=("K", "M"))
+
+
 def variants_guarded(run_, rng, tree, names, seqs, base, bucket, exhaustive):
     try:
         variants(run_, rng, tree, names, seqs, base, bucket, exhaustive)
@@ -489,6 +565,16 @@ def run(ck: Check):
         # (3) dtype regimes / grad modes / copies as pair relations: the same specification evaluated under default
         #     float32 with float64 parameters, under no_grad, after deepcopy, after .cpu() must give the plain value
         regime_failures = []
+        # a FIXED time-tree case for model.to(float32): a listed known finding must be reproduced on every seed / tier
+        try:
+            res = RG.run_probe({"kind": "to-float32", "case": RG.fixed_to_dtype_case()})
+            ck.case(key=("regime", "to-float32", "fixed-time-tree"), bucket="regime/to-float32/fixed-time-tree")
+            if not res["ok"]:
+                regime_failures.append(("to-float32", RG.fixed_to_dtype_case(), res))
+        except InfraError:
+            raise
+        except Exception as e:  # noqa: BLE001
+            ck.mismatch("regime probe could not be evaluated", {"kind": "to-float32", "error": repr(e)[:300]})
         for kind in ("dtype-default32-params64", "grad", "cpu", "to-float32", "immutable"):
             for _ in range(3 if thorough else 1):
                 try:
@@ -501,6 +587,15 @@ def run(ck: Check):
                     raise
                 except Exception as e:  # noqa: BLE001
                     ck.mismatch("regime probe could not be evaluated", {"kind": kind, "error": repr(e)[:300]})
+        # per-symbol sweep over every alphabet
+        try:
+            symbol_sweep(run_, rng, thorough)
+        except InfraError:
+            raise
+        except Exception as e:  # noqa: BLE001
+            import traceback
+
+            ck.mismatch("symbol sweep could not be evaluated", {"error": repr(e)[:300], "where": traceback.format_exc()[-500:]})
         # GeneralDataType alphabets (user-supplied codes + ambiguity map): column relations
         for _ in range(40 if thorough else 8):
             try:
